@@ -130,6 +130,13 @@ def run_case(probe, g, ops, spec):
                 sim.files.pop(allf[i % len(allf)], None)
         sim.files['stray.txt'] = {'c': 'not made by ninja', 'm': sim.now + 1}
         sim.files['o_stray'] = {'c': 'looks like an output', 'm': sim.now + 2}
+        # depfiles that deps=gcc statements left behind (ninja reads and removes them after the command; they stay after a
+        # crash in between, a depfile that could not be parsed, or -d keepdepfile): still "depfiles of the statements in scope"
+        if spec['perturb'] and spec['perturb'][0] % 2 == 0:
+            for e in cmds:
+                if e.get('deps') == 'gcc' and models.depfile_path(e) not in sim.files:
+                    sim.files[models.depfile_path(e)] = {'c': "%s: %s\n" % (key(e), " ".join(e['exp'][:1])), 'm': sim.now + 3}
+                    labels.add('depfile_left_behind_by_deps_statement')
         before = copy.deepcopy(sim.files)
         names = []
         if mode == 'targets':
